@@ -248,13 +248,14 @@ def fam_text(seed, tier):
     whitespace/newline, incl. empty values, values with ':' and unicode) x stream / path I/O x MAC check on/off"""
     import random
     rnd = random.Random(seed + 77)
-    keys = ["Creator", "FirmwareId", "Name with spaces", "k-1", "Ümlaut", "x" * 60, "a,b/c"]
+    keys = ["Creator", "FirmwareId", "Name with spaces", "k-1", "Ümlaut", "x" * 60, "a,b/c",
+            " Creator", "\tBuild", "trailing ", " both ", "", "\u00a0nbsp", "UPPER lower"]      # blanks are part of a key
     vals = ["", "v", "1.2.3", "contains: colon", "trailing.dot.", "ünïcode €", "42", "-"]
     for k, d in enumerate(C03.fam_files(seed, tier)):
         for c in d["comps"]:
             c["enc"] = False
             c["tags"] = [t for t in c["tags"] if t[0] != 0xC2]
-        nk = rnd.randrange(0, 7)
+        nk = rnd.randrange(0, 9)
         ks = rnd.sample(keys, nk)
         d["comments"] = [[kk, rnd.choice(vals)] for kk in ks]
         d["via_path"] = (k % 3 == 0)
@@ -455,3 +456,37 @@ def known_enc_tag(vc):
         return
     c = out.value.components[0]
     vc.prove("post.same-components", vc.And(c.blob == blob, c.encrypt_by_session_key is False))
+
+
+# ---------------------------------------------------------------------------------------
+# comments: every key shape x every value shape, one at a time, and pairs of keys that differ only in blanks (bounded,
+# systematic).  Keys: anything without ':' or a line break; values: anything without surrounding blanks or a line break.
+
+COMMENT_KEYS = ["Creator", "Name with spaces", " leading", "\tleading-tab", "trailing ", " both ", "", "k-1", "Ümlaut €", " nbsp",
+                "x" * 100, "a,b/c", "#hash", "0"]
+COMMENT_VALUES = ["", "v", "1.2.3", "contains: colon", "a:b:c", "ünïcode €", "42", "-", "inner  blanks", "x" * 200]
+
+
+def fam_comments(seed, tier):
+    for k in COMMENT_KEYS:
+        for v in COMMENT_VALUES:
+            yield dict(comments=[[k, v]])
+    for a, b in ((" Creator", "Creator"), ("Creator ", "Creator"), ("\tk", "k"), ("A", "a"), ("", " ")):
+        yield dict(comments=[[a, "first"], [b, "second"]])
+        yield dict(comments=[[b, "first"], [a, "second"]])
+
+
+@proof("C01/comments-roundtrip", functions=[(MOD, "Bf3File.write_bf3_format"), (MOD, "Bf3File.parse_bf3_file")],
+       family=fam_comments, bounded_only=True)
+def comments_roundtrip(vc):
+    import io
+    M = vc.module(MOD)
+    comments = {k: v for k, v in vc._get("comments")}
+    f = M.Bf3File(dict(comments), [M.Bf3Component({0xC3: b"\x02"}, b"payload-bytes")])
+    s = io.StringIO()
+    f.write_file(s, bytes(16))
+    out = vc.call(M.Bf3File.read_file, io.StringIO(s.getvalue()), True, bytes(16))
+    vc.prove("reader-accepts-own-output", out.returned, repr(out.exc))
+    if out.returned:
+        vc.prove("same-comments", dict(out.value.comments) == comments, "%r vs %r" % (dict(out.value.comments), comments))
+        vc.prove("same-components", [(dict(c.description), c.blob) for c in out.value.components] == [({0xC3: b"\x02"}, b"payload-bytes")])
